@@ -292,8 +292,12 @@ func (li *Listener) Close() error {
 	li.doneOnce.Do(func() {
 		close(li.doneChan)
 	})
+	// Close the QUIC listener before the packet connection under it. The other way round, the
+	// transport's read loop fails first and shuts the transport down concurrently with
+	// ql.Close(), and the two can block each other forever inside quic-go.
+	qerr := li.ql.Close()
 	perr := li.pc.Close()
-	if qerr := li.ql.Close(); qerr != nil {
+	if qerr != nil {
 		return qerr
 	}
 
